@@ -27,3 +27,45 @@ package act
 //@   ensures [exceeded_iff] result.1 <==> (len(restarts) + 1 > intensity && (intensity == 0 || wallclock() - old(restarts[len(restarts) - intensity]) <= int64(period) * 1000))
 //@   ensures [stays_sorted] sortedI64(result.0)
 //@   ensures [stays_past] forall i int :: 0 <= i && i < len(result.0) ==> 0 <= result.0[i] && result.0[i] <= wallclock()
+
+// C09 callers: the three supervisor machines consult the restart window with the configured period
+// and intensity, on their own restart history, and store the pruned history back.
+//@ spec func restartsWF(r []int64) bool = sortedI64(r) && (forall i int :: 0 <= i && i < len(r) ==> 0 <= r[i] && r[i] <= wallclock()) && wallclock() >= 0
+//@ func (s *supOFO) childTerminated
+//@   props C09
+//@   mode int
+//@   no_safety
+//@   requires [history_wf] restartsWF(s.restarts) && 0 <= int(s.restart.Period) && 0 <= int(s.restart.Intensity)
+//@   at call supCheckRestartIntensity assert [configured_window] period == int(s.restart.Period) && intensity == int(s.restart.Intensity) && restarts == s.restarts
+//@ func (s *supARFO) childTerminated
+//@   props C09
+//@   mode int
+//@   no_safety
+//@   requires [history_wf] restartsWF(s.restarts) && 0 <= int(s.restart.Period) && 0 <= int(s.restart.Intensity)
+//@   at call supCheckRestartIntensity assert [configured_window] period == int(s.restart.Period) && intensity == int(s.restart.Intensity) && restarts == s.restarts
+//@ func (s *supSOFO) childTerminated
+//@   props C09
+//@   mode int
+//@   no_safety
+//@   requires [history_wf] restartsWF(s.restarts) && 0 <= int(s.restart.Period) && 0 <= int(s.restart.Intensity)
+//@   at call supCheckRestartIntensity assert [configured_window] period == int(s.restart.Period) && intensity == int(s.restart.Intensity) && restarts == s.restarts
+
+// C09 defaults: an unset Intensity / Period becomes the documented default (5 / 5), each on its own;
+// explicitly configured values reach the supervisor machine unchanged.
+//@ ghostheap cfgIntensity() uint16
+//@ ghostheap cfgPeriod() uint16
+//@ iface SupervisorBehavior.Init
+//@   modifies cfgIntensity(), cfgPeriod()
+//@   ensures cfgIntensity() == result.0.Restart.Intensity && cfgPeriod() == result.0.Restart.Period
+//@ func (s *Supervisor) ProcessInit
+//@   props C09
+//@   no_safety
+//@   at call init assert [defaults_per_option] spec.Restart.Intensity == (cfgIntensity() == 0 ? defaultRestartIntensity : cfgIntensity()) && spec.Restart.Period == (cfgPeriod() == 0 ? defaultRestartPeriod : cfgPeriod())
+//@ func createSupOneForOne
+//@   trusted
+//@ func createSupAllRestForOne
+//@   trusted
+//@ func createSupSimpleOneForOne
+//@   trusted
+//@ func validateChildSpec
+//@   trusted
